@@ -433,6 +433,12 @@ class CompGen:
         r = rng.random()
         opt = None if r < 0.4 else "no-opt" if r < 0.55 else str(rng.choice([1, 2, 5, 10, 3, "0.5", "2.5", "0.25", "1.5", "0.04", "12.75", "7.0"]))
         self.stmts.append({"k": "struct", "opt": opt, "name": name, "strands": snames, "domain": domain, "text": text})
+        # other spellings of the same number that float() reads (the bracket holds whatever float() accepts before `nt`)
+        # (the bracket's character class is [\w.]: no sign, hence no negative exponent)
+        alt = {"0.5": [".5", "0.50", "00.5"], "10": ["1e1", "10.", "1E1", "010"], "2.5": ["2.50", "02.5"], "1": ["1E0", "1.", "001"], "2": ["2.", "2e0"],
+               "5": ["5.0", "0.5e1"], "0.25": [".25", "0.250"]}
+        if opt in alt and rng.random() < 0.3:
+            self.stmts[-1]["_opt_text"] = rng.choice(alt[opt])
         self.structs[name] = {"strands": snames, "dp": dp, "opt": opt}
         return name
 
@@ -566,11 +572,12 @@ def render_comp(ast, rng, params_text=None):
             if s["len"] is not None:
                 line += ws(rng) + ":" + ws(rng) + str(s["len"])
         elif k == "struct":
-            opt = "" if s["opt"] is None else ws(rng) + ("[no-opt]" if s["opt"] == "no-opt" else "[%snt]" % s["opt"])
+            opt = "" if s["opt"] is None else ws(rng) + ("[no-opt]" if s["opt"] == "no-opt" else "[%snt]" % s.get("_opt_text", s["opt"]))
             line = "structure" + opt + ws(rng) + s["name"] + ws(rng) + "=" + ws(rng) + (ws(rng) + "+" + ws(rng)).join(s["strands"]) + \
                    ws(rng) + ":" + (ws(rng) + "domain" if s["domain"] else "") + ws(rng) + s["text"]
         else:
-            par = "" if s["low"] is None else " [k > %s /M/s]" % s["low"]
+            g_ = lambda: rng.choice([" ", " ", " ", "  ", "\t", " \t "])     # any white space may stand where the pattern has a blank
+            par = "" if s["low"] is None else " [k%s>%s%s%s/M/s]" % (g_(), g_(), s["low"], g_())
             line = "kinetic" + par + " " + " + ".join(s["ins"]) + " -> " + " + ".join(s["outs"])
         if rng.random() < 0.1:
             line += "  # trailing comment"
